@@ -422,7 +422,7 @@ func genSEIShort(x *runCtx, sub int) *job {
 
 const uePositions = 320
 
-var ueValues = []uint64{1 << 16, 1 << 21, 1 << 22, 255, 1<<32 - 1, 1 << 31, 1<<32 - 2, 1 << 24}
+var ueValues = []uint64{1 << 16, 1 << 21, 1 << 22, 255, 1<<32 - 1, 1 << 31, 1<<32 - 2, 1 << 24, maxU64, 1 << 63, 1 << 32, 1<<33 - 1}
 
 func lethal(v uint64) bool { return v >= 1<<24 }
 
@@ -458,7 +458,7 @@ func genUE(x *runCtx, sub int) {
 		v = ueValues[1+r.Intn(2)]
 	case (pos+int(runner.HashStr(sd.name)%8)+rep/2)%8 == 0:
 		// sampled subset: values that only show as a hang or a multi-GiB allocation
-		v = ueValues[4+r.Intn(4)]
+		v = ueValues[4+r.Intn(8)]
 	default:
 		// small values: uint8/uint16 truncation and table-size limits
 		v = []uint64{255, 256, 1 << 16, 65535, 32, 64}[r.Intn(6)]
@@ -469,7 +469,7 @@ func genUE(x *runCtx, sub int) {
 	for i := 0; i < pos; i++ {
 		w.Put(rd.Get(1), 1)
 	}
-	w.UE(v)
+	putUE(w, v)
 	if !insert {
 		// overwrite: skip as many bits as the code that presumably started here
 		skip := 1 + r.Intn(9)
@@ -896,14 +896,14 @@ func mutatePS(r *runner.Rand, u []byte, hdr int) ([]byte, string) {
 	pos := r.Intn(nbits)
 	v := ueValues[r.Intn(4)]
 	if r.Chance(1, 12) {
-		v = ueValues[4+r.Intn(4)]
+		v = ueValues[4+r.Intn(8)]
 	}
 	w := &bitw.W{}
 	rd := bitw.NewR(rbsp)
 	for i := 0; i < pos; i++ {
 		w.Put(rd.Get(1), 1)
 	}
-	w.UE(v)
+	putUE(w, v)
 	skip := r.Intn(8)
 	for i := 0; i < skip && rd.Left() > 0; i++ {
 		rd.Get(1)
